@@ -52,6 +52,15 @@ HAND = [
                           {"type": "object", "required": ["B"], "properties": {"B": {"type": "integer", "minimum": 3}}, "additionalProperties": False}]},
      "Name": {"type": "string", "maxLength": 8}, "Colour": {"type": "string", "enum": ["red", "green"]},
      "Plain": {"type": "string"}, "Count": {"type": "integer", "minimum": 3}}}),
+ # named types at which a containment cycle is cut (the Box goes INTO the named type, not into an anonymous Option)
+ ("recursive", {"title": "Root", "type": "object", "properties": {"e": _ref("Expr"), "t": _ref("Tree")},
+   "definitions": {
+     "Expr": {"oneOf": [{"type": "object", "required": ["Lit"], "properties": {"Lit": {"type": "integer"}}, "additionalProperties": False},
+                        {"type": "object", "required": ["Neg"], "properties": {"Neg": _ref("Expr")}, "additionalProperties": False},
+                        {"type": "object", "required": ["Add"], "properties": {"Add": {"type": "array", "items": [_ref("Expr"), _ref("Expr")], "minItems": 2, "maxItems": 2}}, "additionalProperties": False}]},
+     "Tree": {"type": "object", "required": ["rest"], "properties": {"v": {"type": "integer"}, "rest": _ref("Forest")}},
+     "Forest": {"oneOf": [{"type": "null"}, _ref("Tree")]},
+     "Chain": {"type": "object", "required": ["next"], "properties": {"next": {"type": "array", "items": _ref("Chain"), "minItems": 1, "maxItems": 1}}}}}),
  # two definitions whose keys give ONE type name (two schema files sharing a definition, merged): a replacement for that name
  # covers both
  ("same-name", {"title": "Root", "type": "object", "properties": {"a": _ref("Timestamp"), "b": _ref("timestamp")},
